@@ -177,6 +177,21 @@ CHECKS = {
              "(tools never call setlocale, checked with nm at run time).",
         technique="deviation-bounded exhaustive enumeration of environment answers on the real binaries",
     ),
+    "C15": dict(
+        level="model_checking",
+        text="One process per input on the asan+ubsan build (fork server; sample and every failure re-run with plain exec): "
+             "EVERY byte string of length <=2 over 39 scanner-derived symbols and length 3 over 32; every token sequence of "
+             "length <=2 over 47 tokens and 3 over 30; every pair of directive/macro lines over 86; ALL single token edits of "
+             "14 corpus files and single byte edits of 4; every #if operator over 6 boundary values; the same alphabets as .N "
+             "command files, -D definitions and included files; parse_file and interrogate (2 option sets) must terminate "
+             "with status 0/1/255, no signal, no sanitizer report, and a reported parse error implies non-zero status and no "
+             "output files. Thorough: 4.9M inputs (lengths 3-4, all 20 corpus files, double edits) on the release build plus "
+             "asan on every input that printed a scanner diagnostic.",
+        design="4/C15",
+        note="UBSan reports that are pure integer arithmetic in the evaluator are decided by the release run of the same input "
+             "(counted as unjudged-by-sanitizer). RLIMIT_NOFILE fixed at 4096.",
+        technique="bounded exhaustive input and single-edit enumeration on the real tools under sanitizers",
+    ),
     "C16": dict(
         level="model_checking",
         text="Every directed graph on k=3 (thorough k=4: all 4096) libraries, cyclic or not, realised by real interrogate "
